@@ -303,6 +303,8 @@ func init() {
 			{"cross-call-state", "no renderer field carries values from one block to the next except the frozen, reasoned ones", ruleCrossCallState("WordRenderer", "(*WordRenderer).Render")},
 			{"softbreak", "every Text node reaches the soft-break test (must-pass-through in the Text case)", ruleSoftBreak},
 			{"code-verbatim", "code block lines are taken from the source without trimming leading whitespace", ruleCodeVerbatim},
+			{"child-order", "block renderers handle the children of a node in one in-order pass (no deferral of some kinds to a second loop)", ruleChildOrder},
+			{"softbreak-space", "a true SoftLineBreak() always leads to the emission of a space (must-pass-through)", ruleSoftBreakSpace},
 			{"fixpoint-progress", "rewrite-until-no-match loops make progress: the replacement callback never returns its argument unchanged on a feasible path", ruleFixpointProgress},
 			{"source-agree", "the renderer reads node text from the very buffer that was parsed (same SSA value)", ruleSourceAgree},
 		},
@@ -319,6 +321,7 @@ func init() {
 			{"pool-escape", "nothing taken from a package-level sync.Pool is returned to callers", rulePoolEscape(pkgMd)},
 			{"cross-call-state", "no writer field carries content from one element to the next except the frozen, reasoned ones", ruleCrossCallState("MarkdownWriter", "(*MarkdownWriter).Write")},
 			{"marshal-pure", "saving a document does not modify it: what is exported after a save is what was built", ruleMarshalPure},
+			{"softbreak-space", "re-import: a soft line break (where the exporter wrapped a line at a space) always becomes a space again", ruleSoftBreakSpace},
 			{"export-all-cells", "every cell of every table row is exported: cells are visited by a range over the row's own cell list", ruleExportAllCells},
 		},
 		Assumptions: commonAssumptions,
